@@ -23,6 +23,11 @@ def memFactOf (d : C06Facts.Dispatch) : Option MemFact :=
 
 def isMemFormat (f : String) : Bool := f == "ds" || f == "flat"
 
+#eval show IO Unit from do
+  let bad := Gen.Lane.memFacts.filter (fun f => !memFactOK Gen.Lane.memFacts f)
+  unless bad.isEmpty do
+    throw (IO.userError s!"C06: DS/FLAT handlers that both load and store, access memory outside the lane loop, or call a helper that accesses memory: {bad.map fun f => (f.arch, f.name, f.accesses.map fun a => (a.line, a.isWrite, a.inLoop))}")
+
 /-- **Every implemented DS / FLAT instruction only loads or only stores** (regenerated, decided): its
     handler's LDS / memory accesses all have one direction, all sit inside the guarded lane loop, and the
     helpers it passes `state` to (`flatAddrWithScalar`, `flatPrecomputeScalarBase`) access nothing. So the
